@@ -893,7 +893,10 @@ func factNonNil(facts []core.Fact, v ssa.Value) bool {
 		if !ok || (bo.Op != token.EQL && bo.Op != token.NEQ) {
 			continue
 		}
-		if !((bo.X == v && core.IsNilConst(bo.Y)) || (bo.Y == v && core.IsNilConst(bo.X))) {
+		// the tested value may be a re-load of the named result the value was
+		// just stored to (`err = f(); if err != nil`)
+		x, y := core.LoadSource(bo.X), core.LoadSource(bo.Y)
+		if !((x == v && core.IsNilConst(bo.Y)) || (y == v && core.IsNilConst(bo.X))) {
 			continue
 		}
 		if (bo.Op == token.NEQ) == truth {
